@@ -173,6 +173,34 @@ pub fn gen_structured(r: &mut Rng, big: bool) -> rn::Msg {
         let l = r.range(20_000, 60_000) as usize;
         m.answer.insert(0, rn::Rr { name: r.pick(&names).clone(), rtype: 16, class: 1, ttl: 1, rdata: r.bytes(l) });
     }
+    if r.chance(1, 12) {
+        // a staircase: every name is the previous one with one more label in front, written in that order, so an
+        // encoder that compresses each against the one before produces a pointer chain as deep as the staircase
+        // (a name has at most 127 labels)
+        let depth = *r.pick(&[3usize, 9, 10, 11, 12, 16, 40, 100, 126]);
+        let mut name: rn::Name = if r.bool() { vec![] } else { m.questions[0].name.iter().rev().take(1).cloned().collect() };
+        let mut stairs = Vec::new();
+        for k in 0..depth {
+            let cur: usize = name.iter().map(|x| x.len() + 1).sum::<usize>() + 1;
+            if cur + 2 > 255 {
+                break;
+            }
+            name.insert(0, vec![b'a' + (k % 26) as u8]);
+            let in_rdata = r.chance(1, 4);
+            stairs.push(if in_rdata {
+                let mut rd = Vec::new();
+                rn::push_name(&mut rd, &name);
+                rn::Rr { name: m.questions[0].name.clone(), rtype: *r.pick(&[2u16, 5, 12]), class: 1, ttl: 60, rdata: rd }
+            } else {
+                rn::Rr { name: name.clone(), rtype: 1, class: 1, ttl: 60, rdata: r.bytes(4) }
+            });
+        }
+        match r.below(3) {
+            0 => m.answer.splice(0..0, stairs),
+            1 => m.authority.splice(0..0, stairs),
+            _ => m.additional.splice(0..0, stairs),
+        };
+    }
     m
 }
 
@@ -180,7 +208,7 @@ pub fn run_c14(seed: u64, thorough: bool, shards: u64) -> Leg {
     let mut total = Leg::new(
         "c14-roundtrip-inproc",
         "C14",
-        "structured messages (0..2000 records, names sharing suffixes at every depth, every record layout with embedded names, opaque rdata up to 60000 octets, three compression styles, sizes up to 65535 octets) through reference-encode -> erbium decode -> erbium encode -> erbium decode and the reference decoder with pointer validation; plus systematic, havoc and grammar-hostile byte inputs accepted by the decoder; distinct = (kind, encoded-size class, record-count class, compression style) or (kind, section shape)",
+        "structured messages (0..2000 records, names sharing suffixes at every depth incl. staircases of up to 126 names each extending the previous one, every record layout with embedded names, opaque rdata up to 60000 octets, three compression styles, sizes up to 65535 octets) through reference-encode -> erbium decode -> erbium encode -> erbium decode and the reference decoder with pointer validation; plus systematic, havoc and grammar-hostile byte inputs accepted by the decoder; distinct = (kind, encoded-size class, record-count class, compression style) or (kind, section shape)",
     );
     total.floor = 3_000;
     let n_struct: u64 = if thorough { 1_500_000 } else { 12_000 };
